@@ -176,6 +176,7 @@ class FnCheck(Check):
     optional_fields: tuple = ()
     container_hints: dict = {}
     max_paths = 4000
+    float_model = 'real'   # 'ieee': every float operation carries a relative rounding error |d| <= 2^-53
 
     # -- to be provided by the concrete contract
     def setup(self, b: Build):
@@ -225,6 +226,7 @@ class FnCheck(Check):
         ctx.optional_fields = set(self.optional_fields)
         ctx.container_hints = dict(self.container_hints)
         ctx.max_paths = self.max_paths
+        ctx.float_model = self.float_model
         ex = Executor(ctx)
         ctx.callees = self.callees(ex)
         ctx.loops = self.loops(ex)
@@ -274,6 +276,72 @@ class FnCheck(Check):
             'feasibility_queries': ctx.stats['feasibility_queries'],
         }
         self._last = (ex, st0, outcomes, b)
+        return vcs, meta
+
+
+class SeqCheck(FnCheck):
+    """Several real functions executed in sequence from one pre-state (composition lemmas on the real code).
+
+    `steps(ex, b)` is a generator protocol replaced by explicit chaining: implement `script(run, b)` where
+    `run(st, qual, self_v, args)` returns the outcomes [(state, V|Raise)] of executing the real function.
+    """
+
+    targets_list: tuple = ()
+
+    @property
+    def targets(self):
+        return tuple(self.targets_list)
+
+    def script(self, run, ex, st, b):
+        """-> list[(State, outcome)] ; call ex.oblige as needed."""
+        raise NotImplementedError
+
+    def generate(self, repo: Repo):
+        ctx = Ctx(repo, self.id)
+        ctx.opaque_ok = self.opaque_ok
+        ctx.inline = set(self.inline)
+        ctx.optional_fields = set(self.optional_fields)
+        ctx.container_hints = dict(self.container_hints)
+        ctx.float_model = self.float_model
+        ex = Executor(ctx)
+        ctx.callees = self.callees(ex)
+        ctx.hooks = self.hooks(ex)
+        st = State(ctx)
+        b = Build(ex, st)
+        metas = []
+
+        def run(s, qual, self_v, args, kwargs=None, loops=None):
+            mod, cdef, fn = repo.find(qual)
+            metas.append({'function': qual, 'lines': [fn.lineno, fn.end_lineno], 'sha256_16': fn_hash(mod, fn)})
+            fv = FuncVal('repo', mod=mod, clsdef=cdef, fn=fn, self_v=self_v, qual=qual)
+            ex.frames.append(Frame(mod, None, None, '<harness>'))
+            try:
+                return ex.inline_call(s, fv, list(args), dict(kwargs or {}), fn, loops=loops)
+            finally:
+                ex.frames.pop()
+        mod0, _, _ = repo.find(self.targets_list[0])
+        ex.frames.append(Frame(mod0, None, None, '<harness>'))
+        try:
+            outcomes = self.script(run, ex, st, b)
+        finally:
+            ex.frames.pop()
+        vcs = []
+        for i, ob in enumerate(ctx.obligations):
+            vc = VC(f'{self.id}.{ob.name}', ob.pc, ob.goal, ob.kind, dict(ob.info, n=i))
+            try:
+                vc.syms = self.witness_exprs(ob.st, b)
+            except Exception:  # noqa: BLE001
+                vc.syms = {}
+            vcs.append(vc)
+        if outcomes:
+            vcs.append(VC(f'{self.id}.cover', [z3.Or(*[z3.And(*s.pc) if s.pc else z3.BoolVal(True)
+                                                         for s, _ in outcomes])], z3.BoolVal(False), 'cover',
+                          expect='sat'))
+        meta = {'function': ' ; '.join(self.targets_list), 'functions': metas, 'paths': len(outcomes or []),
+                'lines': None, 'sha256_16': ','.join(m['sha256_16'] for m in metas),
+                'dropped': sorted(set(ctx.dropped)), 'havocked_calls': sorted(ctx.havocked_calls),
+                'inlined': sorted(ctx.inlined - set(self.targets_list)), 'assumptions': sorted(ctx.assumptions),
+                'trusted': sorted(ctx.trusted | set(self.trusted)), 'unsupported_notes': ctx.unsupported_notes[:20]}
         return vcs, meta
 
 
